@@ -75,11 +75,17 @@ func linkCid(l ipld.Link, sz uint64, err error) (cid.Cid, uint64, error) {
 
 // OursSharded builds a sharded directory with the library.
 func OursSharded(s *store.Store, fanout int, es []DirEntry) (cid.Cid, uint64, error) {
+	return OursShardedHasher(s, fanout, mh.MURMUR3X64_64, es)
+}
+
+// OursShardedHasher: the sharded-directory builder with another name hasher
+// (readers only accept murmur3; the builder takes any registered multihash).
+func OursShardedHasher(s *store.Store, fanout int, hasher uint64, es []DirEntry) (cid.Cid, uint64, error) {
 	ls, err := PBLinks(es)
 	if err != nil {
 		return cid.Undef, 0, err
 	}
-	return linkCid(builder.BuildUnixFSShardedDirectory(fanout, mh.MURMUR3X64_64, ls, s.LinkSystem()))
+	return linkCid(builder.BuildUnixFSShardedDirectory(fanout, hasher, ls, s.LinkSystem()))
 }
 
 // OursDir builds with the auto-selecting plain/sharded builder.
